@@ -40,13 +40,17 @@ CONSTANTS Source,      \* "enum" | "file"
 
 AllKinds == {"module", "class", "function", "method", "attribute"}
 AllFmts  == {"epytext", "restructuredtext", "google", "numpy"}
-Probs    == {"xref", "markup", "unkfield", "param", "tfield", "vfield", "consbad"}
+Probs    == {"xref", "markup", "unkfield", "param", "tfield", "vfield", "consbad", "ambig"}
 Poss     == {"p1", "p2l2", "item", "field", "own"}
 
 \* ------------------------------------------------------------------ layouts
 WellFormed(l) ==
     /\ (l.open => l.blanks = 0)                                   \* text on the opening line: nothing to skip
-    /\ (l.prob \in {"xref", "markup"} <=> l.pos # "own")         \* field problems are their own construct
+    /\ (l.prob \in {"xref", "markup", "ambig"} <=> l.pos # "own")         \* field problems are their own construct
+    \* ambig: a reference to a name that no scope of the object binds but TWO modules of the package define: the linker says so
+    \* ("ambiguous ref to twin, could be ..", linker.look_for_name, twice) and then gives up ("Cannot find link target"): three
+    \* messages, all about the same place in the same docstring
+    /\ (l.prob = "ambig" => ~l.raw /\ l.k = 0 /\ l.blanks = 0 /\ l.indent = 0 /\ ~l.longws /\ l.lead = "none" /\ l.sep = "none" /\ ~l.tight)
     /\ (l.prob = "param" => l.kind \in {"function", "method", "class"})
     \* typed: the Args / Parameters section documents three parameters with their types (napoleon writes a :type: line for each)
     /\ (l.typed => l.fmt \in {"google", "numpy"} /\ l.prob = "param" /\ ~l.raw /\ l.k = 0)
@@ -223,8 +227,8 @@ Offset(l) ==
     \* restructuredtext.py:~262  ParseError(estr, node.line, is_fatal=False): the 1-based docutils line of the field stored where
     \* a 0-based one is expected: one line too low (deviation; pinned by pydoctor/test/epydoc/restructuredtext.doctest)
     [] l.prob = "consbad"                       -> ReportErrorsOffset(ParserFirst(l) + 1)
-    [] l.prob = "xref" /\ l.fmt = "epytext"    -> ParserFirst(l)                               \* epytext.py to_node: lineno attr of the link = startline
-    [] l.prob = "xref" /\ RstFamily(l)         -> ParserAt(l)                                  \* epydoc/docutils.py:108-146 get_lineno
+    [] l.prob \in {"xref", "ambig"} /\ l.fmt = "epytext"    -> ParserFirst(l)                               \* epytext.py to_node: lineno attr of the link = startline
+    [] l.prob \in {"xref", "ambig"} /\ RstFamily(l)         -> ParserAt(l)                                  \* epydoc/docutils.py:108-146 get_lineno
     \* (vfield: reported against the attribute: docstring_lineno(attribute) = docstring line of the parent + line of the
     \* field (extract_fields), the link sits on the first line of the field body: offset 0 from there)
     [] l.prob \in {"unkfield", "param", "tfield", "vfield"} /\ l.fmt = "epytext" -> ParserFirst(l)                \* Field(.., lineno) ; Field.report
@@ -240,8 +244,12 @@ SecondLine(l) == IF l.prob = "tfield" /\ l.pt THEN DocstringLine(l) + IvarOffset
                  ELSE IF l.inl THEN InlineLine(l)            \* astbuilder.py visit_Expr: "Docstring ignored" at value.lineno
                  \* consbad: the field is kept as a "newfield" + a field of that name: two "Unknown field" messages, at the field's line
                  ELSE IF l.prob = "consbad" THEN FirstLine(l)
+                 \* ambig: both messages go through Documentable.report(.., 'resolve_identifier_xref', lineno): the same line
+                 ELSE IF l.prob = "ambig" THEN (IF DocstringLine(l) # 0 THEN DocstringLine(l) ELSE ObjLine(l)) + Offset(l)
                  ELSE 0
-ExpectedCount(l) == IF l.prob = "consbad" THEN 3 ELSE IF (l.prob = "tfield" /\ l.pt) \/ l.inl THEN 2 ELSE 1
+\* (ambig: the name is looked for among the members of every module of the system and among the modules themselves - two
+\* "ambiguous ref" messages - before "Cannot find link target")
+ExpectedCount(l) == IF l.prob \in {"consbad", "ambig"} THEN 3 ELSE IF (l.prob = "tfield" /\ l.pt) \/ l.inl THEN 2 ELSE 1
 \* known finding (findings.d/C16.json  type-field-offset-added-twice)
 KF_TypeTwice(l, line) == l.prob = "tfield" /\ line = SecondLine(l) /\ line \notin Acceptable(l)
 \* The line does not depend on what was asked of the object before: the summary (made of copies of the first paragraph's
